@@ -605,7 +605,25 @@ def rule_lookup_delegation(ctx, prog, rule="R13"):
         r = strip(be.return_expr())
         oke = isinstance(r, tuple) and r[0] == "binop" and r[1] == "Eq" and strip(r[3]) == ("const", "usize", 0) and \
             isinstance(strip(r[2]), tuple) and strip(r[2])[0] == "call" and strip(r[2])[1] == "len" and strip(strip(r[2])[3][0])[:2] == ("param", 1)
-        ctx.ob(rule, "Bins::is_empty/agrees-with-len", oke, be.where(), "= (self.len() == 0)" if oke else "Bins::is_empty is `%s`" % fmt(r)[:100],
+        if not oke:
+            # any other spelling: evaluated for every edge count n ≤ 8 against  (number of bins = max(n − 1, 0)) == 0
+            from .paths import evaluate, CannotEval
+
+            def _sym(e_):
+                if isinstance(e_, tuple) and e_[0] == "call" and e_[1] == "len" and e_[3]:
+                    r_ = strip(e_[3][0])
+                    if r_ == ("field", ("param", 1, "self"), "edges"):
+                        return "n"
+                    if r_[:2] == ("param", 1) and "Bins" in str(e_[2]):
+                        return "bl"
+                if isinstance(e_, tuple) and e_[0] == "call" and e_[1] == "is_empty" and e_[3] and strip(e_[3][0]) == ("field", ("param", 1, "self"), "edges"):
+                    return "ne"
+                return None
+            try:
+                oke = all(bool(evaluate(r, {"n": n_, "bl": max(n_ - 1, 0), "ne": n_ == 0}, _sym, prog)) == (max(n_ - 1, 0) == 0) for n_ in range(0, 9))
+            except (CannotEval, Exception):
+                oke = False
+        ctx.ob(rule, "Bins::is_empty/agrees-with-len", oke, be.where(), "true exactly when the number of bins max(#edges − 1, 0) is zero" if oke else "Bins::is_empty is `%s`" % fmt(r)[:100],
                what="is_empty disagrees with len")
     # Grid::ndim is the number of projections (it is the arity every point / index is compared with)
     gn = prog.find("histogram::grid::Grid::<A>::ndim")
@@ -631,6 +649,8 @@ def rule_r16(ctx, prog, rule="R16"):
     from .rules_terms import unwrap_try
     from .rules_unsafe import norm_arith
     b = prog.find("histogram::histograms::Histogram::<A>::add_observation")
+    from .facts import forward_result_local
+    b = forward_result_local(prog, b)          # `let mut outcome = Err(..); ..; outcome = Ok(()); outcome` is the return place by another name
     # the lookup: exactly one self.grid.index_of(observation)
     looks = [(bb, t) for bb, t in b.calls() if callee_name(t) == "index_of"]
     ok = len(looks) == 1
